@@ -178,6 +178,21 @@ VCpRange(r) ==
     ELSE IF ~r.requery THEN Rej("C08 re-querying the normalized path fails for a member-name character", <<r.lo, r.hi>>)
     ELSE Acc
 
+(* ---- member-name shorthand over code-point ranges (C03 / C04) ------------------ *)
+\* r.lo..r.hi: a range of code points >= 128 on which compile() behaved uniformly when the code point stood as the FIRST and
+\* as a LATER character of a member-name shorthand ($.c  $.cb  $.ac  $..c  $[?@.c == 1]  $.a.c1): r.acc = "all" (every form
+\* compiled), "none" or "mixed"; r.sel: where it compiled, $.c selected the member of that name; r.jp: every error raised was
+\* a JSONPathError.  Beyond ASCII the grammar's name-first and name-char coincide.
+VShRange(r) ==
+    IF r.lo < 128 THEN Rej("shrange below 128", <<r.lo>>)
+    ELSE IF ~r.jp THEN Rej("C13 compile raised a non-JSONPathError", <<r.lo, r.hi>>)
+    ELSE IF \E cp \in r.lo..r.hi : IsNameFirst(cp) /\ r.acc # "all"
+    THEN Rej("C03 valid query rejected", <<r.lo, r.hi, r.acc>>)
+    ELSE IF \E cp \in r.lo..r.hi : ~IsNameFirst(cp) /\ r.acc # "none"
+    THEN Rej("C04 a text outside the grammar compiled", <<"name", r.lo, r.hi, r.acc>>)
+    ELSE IF r.acc = "all" /\ ~r.sel THEN Rej("C01 shorthand name selects another member", <<r.lo, r.hi>>)
+    ELSE Acc
+
 (* ---- string literal decoding (C09) ------------------------------------------- *)
 \* r.text: a candidate string literal (with its quotes); r.res: "rejected" or "decoded",
 \* r.val: the decoded code points, as observed through name selection and comparison
@@ -455,6 +470,7 @@ Verdict(r) ==
       [] r.op = "litrange" -> VLitRange(r)
       [] r.op = "requery" -> VRequery(r)
       [] r.op = "cprange" -> VCpRange(r)
+      [] r.op = "shrange" -> VShRange(r)
       [] r.op = "total"   -> VTotal(r)
       [] r.op = "errpos"  -> VErrPos(r)
       [] r.op = "str"     -> VStr(r)
